@@ -1204,8 +1204,9 @@ def run(ctx: vlib.Ctx):
         "C07_binding_partial", "C07_binding_post", "C07_binding", "C07_error", "C07_null_wins",
         "C07_keys_are_code", "C07_first_key_wins", "C07_nullable_is_code",
         "C07_default_is_code", "C07_assembly_is_code", "C07_arg_step_is_code", "C07_kw_step_is_code",
+        "C07_field_block_is_code",
         "C07_positional_prefix", "C07_noninit_unread", "C07_sticky_irrelevant", "C07_factory_fresh",
-        "C07_binding_refuted", "C07_noninit_refuted_plain_base"], kernels=["K4", "K17", "K107a"])
+        "C07_binding_refuted", "C07_noninit_refuted_plain_base"], kernels=["K4", "K17", "K107a", "K107b"])
     if br.ok and not ctx.quick():
         rc, out, _ = vlib.run(["timeout", "900", "coqchk", "-silent", "-o"] + vlib.COQ_FLAGS[:9] + ["VerifProps.C07_bind"],
                               cwd=vlib.COQ, timeout=930)
